@@ -49,6 +49,68 @@ def _ggm_trace(out, pid, seed, runs, steps, order_offset=0):
         out.traces -= min(out.traces, runs)   # recorded but not accepted
 
 
+def _run_tool(cmd, cwd, timeout, env=None):
+    p = subprocess.run(["timeout", str(timeout)] + cmd, cwd=cwd, env=env, stdout=subprocess.PIPE, stderr=subprocess.STDOUT, text=True)
+    if p.returncode == 124:
+        raise ToolError("timed out: " + " ".join(cmd[:4]))
+    return p.stdout
+
+
+def _ggm_unbounded(out, pid, thorough, light=False):
+    """The unbounded leg of C10/C11 at model level, three specifications deep:
+       GGM.tla (code-shaped; bound to the code by replay and trace validation)
+         refines GGM_Ind (node identifiers; inductive invariant over the complete tree, Apalache)
+         refines GGM_Abs (leaf sets; invariant proved with TLAPS for every domain).
+       The refinements and the finite tree lemma are checked by TLC (MC_GGM cfgs carry RefinesInd)."""
+    t0 = time.time()
+    proofs = []
+    # (1) TLAPS: Inv is inductive for GGM_Abs, for every input domain and tree shape
+    wd = workdir(pid + "-tlaps")
+    for f in ("GGM_Abs.tla", "TLAPS.tla"):
+        shutil.copy(os.path.join(SPEC, f), wd)
+    txt = _run_tool(["tlapm", "--threads", "6", "GGM_Abs.tla"], wd, 900)
+    m = re.search(r"All (\d+) obligations? proved", txt)
+    shutil.rmtree(wd, ignore_errors=True)
+    if not m:
+        log(txt[-3000:])
+        raise ToolError("tlapm did not prove GGM_Abs.tla")
+    proofs.append({"tool": "tlapm", "module": "GGM_Abs", "theorems": ["Safety: Spec => []Inv", "Consequences: Inv => ForwardSecure /\\ CoveredOnce",
+                   "StepInv: a step uncovers the punctured input only"], "obligations_proved": int(m.group(1)), "bound": "none (any input set, any tree shape)"})
+    # (2) TLC: tree lemma for the 8-bit tree + refinement GGM_Ind => GGM_Abs
+    cfgs = ["GGMAbs_d8_first.cfg"] if light else ["GGMAbs_d3.cfg", "GGMAbs_d8_first.cfg"]
+    if thorough:
+        cfgs = ["GGMAbs_d3.cfg", "GGMAbs_d4.cfg", "GGMAbs_d8_pairs.cfg"]
+    for cfg in cfgs:
+        r = run_tlc("MC_GGM_Abs", cfg, workers=6, timeout=3000, tag=pid + "-" + cfg[:-4])
+        out.add_tlc(r, "MC_GGM_Abs/" + cfg)
+    if thorough:
+        r = run_tlc("MC_GGM_Abs", "GGMAbs_d8_sim.cfg", workers=1, timeout=3000, simulate=6, depth=257, tag=pid + "-abs-sim")
+        out.add_tlc(r, "MC_GGM_Abs/GGMAbs_d8_sim.cfg (6 complete puncture orders)")
+    # (3) Apalache: IndInv of GGM_Ind is inductive (symbolic: all punctured sets at once)
+    if not light:
+        runs = [("GGMInd_base8.apa.cfg", 0, "Init => IndInv, depth 8"), ("GGMInd_step3.apa.cfg", 1, "IndInv /\\ Next => IndInv', depth 3")]
+        if thorough:
+            runs.append(("GGMInd_step4.apa.cfg", 1, "IndInv /\\ Next => IndInv', depth 4"))
+        for cfg, length, what in runs:
+            wd = workdir(pid + "-apa")
+            for f in ("GGM_Ind.tla", "MC_GGM_Ind.tla"):
+                shutil.copy(os.path.join(SPEC, f), wd)
+            shutil.copy(os.path.join(SPEC, "mc", cfg), wd)
+            txt = _run_tool(["apalache-mc", "check", "--config=" + cfg, "--length=" + str(length), "--out-dir=" + os.path.join(wd, "o"),
+                             "MC_GGM_Ind.tla"], wd, 3000, env=dict(os.environ, JVM_ARGS="-Xmx8g"))
+            shutil.rmtree(wd, ignore_errors=True)
+            if "The outcome is: NoError" not in txt:
+                log(txt[-3000:])
+                if "The outcome is: Error" in txt:
+                    out.violations.append({"property": pid, "site": "GGM_Ind", "input_class": "inductive-invariant-fails:" + cfg,
+                                           "detail": "Apalache found a counterexample to the inductive invariant of GGM_Ind", "replay": {"config": cfg}})
+                    continue
+                raise ToolError("apalache-mc failed on " + cfg)
+            proofs.append({"tool": "apalache-mc", "module": "GGM_Ind", "obligation": what, "outcome": "NoError"})
+    out.extra["unbounded_model_argument"] = {"chain": "GGM (code-shaped, TLC + conformance) => GGM_Ind (Apalache inductive invariant) => GGM_Abs (TLAPS proof)",
+                                             "proofs": proofs, "wall_s": round(time.time() - t0, 1)}
+
+
 @check("C10")
 def c10(tier, seed):
     out = Outcome("C10", tier, seed, "model_checking")
@@ -72,6 +134,7 @@ def c10(tier, seed):
     out.add_vh(run_vh(["ggm-pairs", "--stride", 1 if thorough else 8, "--seed", seed]), only={"C10"})
     _ggm_trace(out, "C10", seed, 8 if thorough else 2, 256 if thorough else 80)
     _ggm_trace(out, "C10", seed + 7, 2 if thorough else 1, 256, order_offset=6)   # complete puncturing: all 256 inputs
+    _ggm_unbounded(out, "C10", thorough)
     out.exhaustive = False
     return out
 
@@ -109,7 +172,18 @@ def c11(tier, seed):
     _ggm_trace(out, "C11", seed + 8, 2 if thorough else 1, 256, order_offset=4)
     _protocol_stage(out, "C11", thorough)
     _expect_spec_violation(out, "Neg_GGM", "Neg_GGM.cfg", "ForwardSecure for a puncture that only black-lists the input")
+    _ggm_unbounded(out, "C11", thorough, light=not thorough)
     return out
+
+
+def _purity(out, pid, seed, rounds=3):
+    """History independence of the deterministic calls behind `pid` (Trace_Pure): same call => same result,
+    demanded result classes on every execution, three threads, shuffled orders."""
+    wd = workdir(pid + "-pure")
+    tr = os.path.join(wd, "pure.ndjson")
+    cmd = ["purity-record", "--out", tr, "--seed", seed, "--rounds", rounds]
+    out.add_vh(run_vh(cmd), only={pid})
+    _trace_check(out, pid, "Trace_Pure", "Trace_Pure.cfg", tr, cmd, 1, "call log (history independence)")
 
 
 def _trace_check(out, pid, module, cfg, tr, cmd, ntraces, label):
@@ -233,6 +307,7 @@ def c01(tier, seed):
     _star_big(out, "C01", seed, thorough)
     out.add_vh(run_vh(["length-sweep", "--prop", "C01", "--seed", seed, "--max", 700 if thorough else 200], timeout=3000), only={"C01"})
     out.add_vh(run_vh(["generator-reuse", "--seed", seed], timeout=3000), only={"C01"})
+    _purity(out, "C01", seed, rounds=4 if tier == "thorough" else 3)
     return out
 
 
@@ -251,6 +326,7 @@ def c05(tier, seed):
     for k in range(6 if thorough else 1):
         out.add_vh(run_vh(["tamper-sweep", "--seed", seed + k, "--positions", "all"], timeout=3000), only={"C05"})
     _expect_spec_violation(out, "Neg_Adss", "Neg_Adss.cfg", "authenticated recovery when the MAC does not cover the threshold")
+    _purity(out, "C05", seed, rounds=4 if tier == "thorough" else 3)
     return out
 
 
@@ -278,7 +354,8 @@ def c17(tier, seed):
                 "epochs) are executed through star_wasm::create_share / group_shares with UTF-8 valuations (incl. empty and "
                 "non-ASCII epochs); create_share output is compared with the core library; distinct = distinct inbox x valuation")
     out.assumptions = [STAR_ASSUME, "group_shares is called natively (rlib), not through a WASM runtime"]
-    _recover_family(out, "C17", ["Star_q_honest.cfg", "Star_t_honest.cfg" if thorough else "Star_t4_honest.cfg"], seed, 10)
+    _recover_family(out, "C17", ["Star_q_honest.cfg", "Star_t_honest.cfg" if thorough else "Star_t4_honest.cfg"], seed, 12)
+    _purity(out, "C17", seed, rounds=4 if tier == "thorough" else 3)
     return out
 
 
@@ -447,9 +524,10 @@ def c04(tier, seed):
         if len(res.lines.get("DERIVE", [])) < 100:
             raise ToolError("MC_Derive emitted too few triples")
         out.add_vh(run_vh(["derive-replay", "--lines", lp, "--seed", seed, "--vals", 10,
-                           "--thrmaps", 5 if thorough else 4, "--clients", 16 if thorough else 3], timeout=3000), only={"C04"})
+                           "--thrmaps", 6 if thorough else 5, "--clients", 16 if thorough else 3], timeout=3000), only={"C04"})
     out.add_vh(run_vh(["length-sweep", "--prop", "C04", "--seed", seed, "--max", 1000 if thorough else 300], timeout=3000), only={"C04"})
     out.add_vh(run_vh(["thread-clients", "--seed", seed], timeout=3000), only={"C04"})
+    _purity(out, "C04", seed, rounds=4 if tier == "thorough" else 3)
     return out
 
 
@@ -533,6 +611,7 @@ def c12(tier, seed):
     out.add_tlc(rh, "MC_Oprf/Oprf_hist.cfg (request histories)")
     out.add_vh(run_vh(["oprf-check", "--seed", seed, "--blindings", 64 if thorough else 8,
                        "--inputs", 80 if thorough else 45], timeout=3000), only={"C12"})
+    _purity(out, "C12", seed, rounds=4 if tier == "thorough" else 3)
     return out
 
 
@@ -555,6 +634,7 @@ def c13(tier, seed):
     rf = run_vh(["dleq-forge", "--seed", seed, "--n", 40 if thorough else 6], timeout=3000)
     out.add_vh(rf, only={"C13"})
     out.extra["forgery_positive_controls_ok"] = rf.get("counters", {}).get("positive_controls_ok", 0)
+    _purity(out, "C13", seed, rounds=4 if tier == "thorough" else 3)
     return out
 
 
@@ -606,5 +686,15 @@ def c18(tier, seed):
     out.add_vh(run_vh(["agg-replay", "--lines", lp, "--seed", seed, "--scale", 3, "--perms", 3], timeout=3000), only={"C18"})
     out.add_vh(run_vh(["agg-replay", "--lines", lp, "--seed", seed + 1, "--scale", 100 if thorough else 45,
                        "--perms", 4 if thorough else 3], timeout=3000), only={"C18"})
+    # thresholds 1..8 with every below-threshold size next to sizes t, t+1, 2t (expectation from Aggregator!Expected)
+    r = run_tlc("MC_AggSweep", "AggSweep.cfg", workers=1, timeout=300, tags=("AGG",), tag="C18-sweep")
+    out.add_tlc(r, "MC_AggSweep/AggSweep.cfg")
+    sw = r.lines.get("AGG", [])
+    if len(sw) < 8:
+        raise ToolError("MC_AggSweep emitted too few populations")
+    lp2 = os.path.join(wd, "aggsweep.ndjson")
+    write_ndjson(lp2, sw)
+    out.add_vh(run_vh(["agg-replay", "--lines", lp2, "--seed", seed + 2, "--scale", 12 if thorough else 5, "--perms", 2,
+                       "--pools", "1,2,3,4,8,16" if thorough else "1,3,16"], timeout=3000), only={"C18"})
     _expect_spec_violation(out, "Neg_Aggregator", "Neg_Aggregator.cfg", "OutputCorrect for a strict (>) threshold filter")
     return out
